@@ -39,6 +39,12 @@ package main
 // default HTTP mux (http.Handle/HandleFunc), the global flag set (flag.Parse/Set/...Var), runtime knobs
 // (runtime.GOMAXPROCS, debug.Set*), time.Local through assignments. Assignments to variables of imported
 // packages (http.DefaultClient = ..., os.Stdout = ...) are already in pkg_var_writes with kind *-foreign.
+// pkg_sync_vars (name, kind): package-level synchronisation state - channels, sync.Mutex/RWMutex/WaitGroup/Once/Cond/
+// Map/Pool, sync/atomic value types, x/sync semaphore/errgroup/singleflight, and structs/arrays/pointers of
+// them (also through the struct types declared in the package).  A blocking primitive shared by all calls can
+// make independent calls wait for each other (or for ever); the interleaving model has no blocking action.
+// Operations on a package-level channel (send, receive, close, range, select case) are listed in pkg_var_writes
+// with kinds chan-send / chan-receive / chan-close.
 // pkg_var_escapes: a package variable of map/slice/pointer/chan/func (or undetermined) type that is
 // copied into a local, passed as an argument, returned, stored or captured, so that it could be
 // modified through an alias the syntactic inventory cannot follow.
@@ -68,6 +74,7 @@ type gPkg struct {
 	writes   []gWrite // in ordinary functions
 	initW    []gWrite // in init() and in package-level initialisers
 	escapes  []gWrite
+	syncs    []gVar   // package-level synchronisation primitives / channels (name, kind)
 	procs    []gWrite // calls mutating process-global state (v = call, kind = which state), ordinary functions
 	procsI   []gWrite // the same inside init() / package-level initialisers
 	inits    []string
@@ -160,17 +167,18 @@ func analyseGlobals(repo, dir string, realStd bool) (*gPkg, error) {
 }
 
 type gAnalysis struct {
-	fset     *token.FileSet
-	info     *types.Info
-	pkg      *types.Package
-	res      *gPkg
-	files    []*ast.File
-	seen     map[string]bool
-	kinds    map[string]string
-	mutating map[*types.Func]bool // value-receiver methods of the package that mutate their (map/slice) receiver
-	benign   map[*ast.Ident]bool  // uses of package variables in read-only positions
-	curFn    string
-	inInit   bool
+	fset      *token.FileSet
+	info      *types.Info
+	pkg       *types.Package
+	res       *gPkg
+	files     []*ast.File
+	seen      map[string]bool
+	kinds     map[string]string
+	syncKinds map[string]string
+	mutating  map[*types.Func]bool // value-receiver methods of the package that mutate their (map/slice) receiver
+	benign    map[*ast.Ident]bool  // uses of package variables in read-only positions
+	curFn     string
+	inInit    bool
 }
 
 func (a *gAnalysis) pkgVar(id *ast.Ident) *types.Var {
@@ -215,6 +223,7 @@ func (a *gAnalysis) calleeIs(e ast.Expr, pkgPath string, fns ...string) bool {
 
 func (a *gAnalysis) collectVars() {
 	a.kinds = map[string]string{}
+	a.syncKinds = map[string]string{}
 	type pv struct {
 		name string
 		pos  token.Pos
@@ -258,6 +267,10 @@ func (a *gAnalysis) collectVars() {
 					case tstr == "string":
 						kind = "string"
 					}
+					if sk := a.syncKind(vs.Type, init, ty); sk != "" {
+						kind = "sync"
+						a.syncKinds[n.Name] = sk
+					}
 					a.kinds[n.Name] = kind
 					order = append(order, pv{n.Name, n.Pos()})
 				}
@@ -267,7 +280,144 @@ func (a *gAnalysis) collectVars() {
 	sort.Slice(order, func(i, j int) bool { return a.posLess(order[i].pos, order[j].pos) })
 	for _, o := range order {
 		a.res.vars = append(a.res.vars, gVar{o.name, a.kinds[o.name]})
+		if sk, ok := a.syncKinds[o.name]; ok {
+			a.res.syncs = append(a.res.syncs, gVar{o.name, sk})
+		}
 	}
+}
+
+var syncTypeNames = map[string]map[string]bool{
+	"sync":                           {"Mutex": true, "RWMutex": true, "WaitGroup": true, "Once": true, "Cond": true, "Map": true, "Pool": true, "Locker": true},
+	"sync/atomic":                    {"Int32": true, "Int64": true, "Uint32": true, "Uint64": true, "Uintptr": true, "Bool": true, "Value": true, "Pointer": true},
+	"golang.org/x/sync/semaphore":    {"Weighted": true},
+	"golang.org/x/sync/errgroup":     {"Group": true},
+	"golang.org/x/sync/singleflight": {"Group": true},
+}
+var syncConstructors = map[string]map[string]string{
+	"sync":                        {"NewCond": "sync.Cond", "OnceFunc": "sync.Once", "OnceValue": "sync.Once", "OnceValues": "sync.Once"},
+	"golang.org/x/sync/semaphore": {"NewWeighted": "semaphore.Weighted"},
+}
+
+// syncKindOfExpr: a type expression (or composite literal type) that is a channel or a synchronisation type of an
+// imported package, possibly below pointers, arrays, slices, maps and anonymous structs.
+func (a *gAnalysis) syncKindOfExpr(e ast.Expr) string {
+	switch x := e.(type) {
+	case nil:
+		return ""
+	case *ast.ChanType:
+		return "chan"
+	case *ast.StarExpr:
+		return a.syncKindOfExpr(x.X)
+	case *ast.ParenExpr:
+		return a.syncKindOfExpr(x.X)
+	case *ast.ArrayType:
+		return a.syncKindOfExpr(x.Elt)
+	case *ast.MapType:
+		return a.syncKindOfExpr(x.Value)
+	case *ast.IndexExpr: // generic instantiation atomic.Pointer[T]
+		return a.syncKindOfExpr(x.X)
+	case *ast.StructType:
+		for _, f := range x.Fields.List {
+			if k := a.syncKindOfExpr(f.Type); k != "" {
+				return "struct{" + k + "}"
+			}
+		}
+	case *ast.SelectorExpr:
+		if id, ok := x.X.(*ast.Ident); ok {
+			if p := a.importedPkg(id); p != "" && syncTypeNames[p][x.Sel.Name] {
+				return id.Name + "." + x.Sel.Name
+			}
+		}
+	case *ast.Ident:
+		// a type declared in this package: look into its definition
+		if tn, ok := a.info.Uses[x].(*types.TypeName); ok && tn.Pkg() == a.pkg {
+			if k := a.syncKindOfType(tn.Type(), 0); k != "" {
+				return x.Name + "{" + k + "}"
+			}
+			for _, f := range a.files {
+				for _, d := range f.Decls {
+					if gd, ok := d.(*ast.GenDecl); ok && gd.Tok == token.TYPE {
+						for _, sp := range gd.Specs {
+							ts := sp.(*ast.TypeSpec)
+							if ts.Name.Name == x.Name && a.info.Defs[ts.Name] == tn {
+								if _, self := ts.Type.(*ast.Ident); !self {
+									if k := a.syncKindOfExpr(ts.Type); k != "" {
+										return x.Name + "{" + k + "}"
+									}
+								}
+							}
+						}
+					}
+				}
+			}
+		}
+	}
+	return ""
+}
+
+// syncKindOfType: the same on a resolved type (channels and, when the standard library is really imported, named types)
+func (a *gAnalysis) syncKindOfType(t types.Type, depth int) string {
+	if t == nil || depth > 4 {
+		return ""
+	}
+	if n, ok := t.(*types.Named); ok && n.Obj() != nil && n.Obj().Pkg() != nil && syncTypeNames[n.Obj().Pkg().Path()][n.Obj().Name()] {
+		return n.Obj().Pkg().Name() + "." + n.Obj().Name()
+	}
+	switch u := t.Underlying().(type) {
+	case *types.Chan:
+		return "chan"
+	case *types.Pointer:
+		return a.syncKindOfType(u.Elem(), depth+1)
+	case *types.Array:
+		return a.syncKindOfType(u.Elem(), depth+1)
+	case *types.Slice:
+		return a.syncKindOfType(u.Elem(), depth+1)
+	case *types.Map:
+		return a.syncKindOfType(u.Elem(), depth+1)
+	case *types.Struct:
+		for i := 0; i < u.NumFields(); i++ {
+			if k := a.syncKindOfType(u.Field(i).Type(), depth+1); k != "" {
+				return "struct{" + k + "}"
+			}
+		}
+	}
+	return ""
+}
+
+func (a *gAnalysis) syncKind(typ ast.Expr, init ast.Expr, ty types.Type) string {
+	if k := a.syncKindOfExpr(typ); k != "" {
+		return k
+	}
+	if k := a.syncKindOfType(ty, 0); k != "" {
+		return k
+	}
+	for init != nil {
+		switch x := init.(type) {
+		case *ast.ParenExpr:
+			init = x.X
+			continue
+		case *ast.UnaryExpr: // &sync.Mutex{}
+			init = x.X
+			continue
+		case *ast.CompositeLit:
+			return a.syncKindOfExpr(x.Type)
+		case *ast.CallExpr:
+			if id, ok := x.Fun.(*ast.Ident); ok && (id.Name == "make" || id.Name == "new") && len(x.Args) > 0 {
+				if _, isB := a.info.Uses[id].(*types.Builtin); isB || a.info.Uses[id] == nil {
+					return a.syncKindOfExpr(x.Args[0])
+				}
+			}
+			if sel, ok := x.Fun.(*ast.SelectorExpr); ok {
+				if id, ok := sel.X.(*ast.Ident); ok {
+					if k := syncConstructors[a.importedPkg(id)][sel.Sel.Name]; k != "" {
+						return k
+					}
+				}
+			}
+		}
+		break
+	}
+	return ""
 }
 
 func isStringType(t types.Type) bool {
@@ -593,6 +743,10 @@ func (a *gAnalysis) inspect(root ast.Node) {
 					}
 				}
 			}
+			if name, _, foreign, rid := a.target(x.X); name != "" && a.syncKinds[name] != "" && strings.HasPrefix(a.syncKinds[name], "chan") {
+				a.benign[rid] = true
+				a.record(name, "chan-receive", foreign, x.Pos())
+			}
 			a.markBenign(x.X) // ranging over a package variable reads it
 		case *ast.UnaryExpr:
 			if x.Op == token.AND {
@@ -600,6 +754,17 @@ func (a *gAnalysis) inspect(root ast.Node) {
 					a.benign[rid] = true
 					a.record(name, "address-taken", foreign, x.Pos())
 				}
+			}
+			if x.Op == token.ARROW {
+				if name, _, foreign, rid := a.target(x.X); name != "" {
+					a.benign[rid] = true
+					a.record(name, "chan-receive", foreign, x.Pos())
+				}
+			}
+		case *ast.SendStmt:
+			if name, _, foreign, rid := a.target(x.Chan); name != "" {
+				a.benign[rid] = true
+				a.record(name, "chan-send", foreign, x.Pos())
 			}
 		case *ast.BinaryExpr:
 			if x.Op == token.EQL || x.Op == token.NEQ {
@@ -620,6 +785,13 @@ func (a *gAnalysis) inspect(root ast.Node) {
 							k = "copy-into"
 						}
 						a.record(name, k, foreign, x.Pos())
+					}
+				}
+			case "close":
+				if len(x.Args) > 0 {
+					if name, _, foreign, rid := a.target(x.Args[0]); name != "" {
+						a.benign[rid] = true
+						a.record(name, "chan-close", foreign, x.Pos())
 					}
 				}
 			case "len", "cap":
@@ -837,6 +1009,17 @@ func genGlobals(repo string) (string, error) {
 	sb.WriteString("Definition pkg_var_writes : list (str * str * str) := " + coqTriples(lib.writes) + ".\n\n")
 	sb.WriteString("(* reference-typed package variables that escape into a local, an argument, a result or a closure *)\n")
 	sb.WriteString("Definition pkg_var_escapes : list (str * str * str) := " + coqTriples(lib.escapes) + ".\n\n")
+	sb.WriteString("(* (name, kind): package-level channels and synchronisation primitives (blocking state shared by all calls) *)\n")
+	sb.WriteString("Definition pkg_sync_vars : list (str * str) := ")
+	if len(lib.syncs) == 0 {
+		sb.WriteString("(@nil (str * str)).\n\n")
+	} else {
+		it := make([]string, len(lib.syncs))
+		for i, v := range lib.syncs {
+			it[i] = fmt.Sprintf("(%s, %s)", coqStr(v.name), coqStr(v.kind))
+		}
+		sb.WriteString("[\n  " + strings.Join(it, ";\n  ") + "].\n\n")
+	}
 	sb.WriteString("(* (call, function, state): calls that change process-global state (cwd, environment, umask, signals, default logger,\n")
 	sb.WriteString("   global rand, default HTTP mux, global flags, runtime knobs): shared by all goroutines, invisible to the race detector *)\n")
 	sb.WriteString("Definition pkg_process_state_calls : list (str * str * str) := " + coqTriples(lib.procs) + ".\n")
@@ -846,7 +1029,7 @@ func genGlobals(repo string) (string, error) {
 	sb.WriteString("Definition pkg_init_writes : list (str * str * str) := " + coqTriples(lib.initW) + ".\n\n")
 
 	// the command line front end and internal packages: listed for completeness, not part of the library property
-	var ovars, owrites, oinit, oprocs []string
+	var ovars, owrites, oinit, oprocs, osyncs []string
 	for _, d := range goDirs(repo, "cmd", "internal", filepath.Join("in_toto", "slsa_provenance")) {
 		p, err := analyseGlobals(repo, d, false)
 		if err != nil {
@@ -854,6 +1037,9 @@ func genGlobals(repo string) (string, error) {
 		}
 		for _, v := range p.vars {
 			ovars = append(ovars, fmt.Sprintf("(%s, %s, %s)", coqStr(d), coqStr(v.name), coqStr(v.kind)))
+		}
+		for _, v := range p.syncs {
+			osyncs = append(osyncs, fmt.Sprintf("(%s, %s, %s)", coqStr(d), coqStr(v.name), coqStr(v.kind)))
 		}
 		for _, w := range p.writes {
 			owrites = append(owrites, fmt.Sprintf("(%s, %s, %s, %s)", coqStr(d), coqStr(w.v), coqStr(w.fn), coqStr(w.kind)))
@@ -876,6 +1062,7 @@ func genGlobals(repo string) (string, error) {
 	sb.WriteString("Definition other_pkg_vars : list (str * str * str) := " + lst(ovars, "str * str * str") + ".\n")
 	sb.WriteString("Definition other_pkg_var_writes : list (str * str * str * str) := " + lst(owrites, "str * str * str * str") + ".\n")
 	sb.WriteString("Definition other_pkg_init_writes : list (str * str * str * str) := " + lst(oinit, "str * str * str * str") + ".\n")
+	sb.WriteString("Definition other_pkg_sync_vars : list (str * str * str) := " + lst(osyncs, "str * str * str") + ".\n")
 	sb.WriteString("Definition other_pkg_process_state_calls : list (str * str * str * str) := " + lst(oprocs, "str * str * str * str") + ".\n")
 	return sb.String(), nil
 }
